@@ -129,6 +129,11 @@ def main(tier, seed):
         before = multiset(np.vstack([Xtr, Xva]), np.hstack([Ytr, Yva]))
         try:
             (Xt2, Yt2, Xv2, Yv2), recs, final, opf = run_learn(metric, Xtr, Ytr, Xva, Yva, n_iter, i)
+        except IndexError as ex:
+            # swaps can empty a class out of the validation labels; opf_accuracy then indexes out of range
+            # (its domain is 'every class present among the true labels', C20) - not a C17 matter
+            lstats["out_of_domain_accuracy"] = lstats.get("out_of_domain_accuracy", 0) + 1
+            continue
         except Exception as ex:
             lstats["crashed"] += 1
             nviol += 1
